@@ -133,6 +133,9 @@ type Request struct {
 	SackPortInHost bool         `json:"sack_port_in_host,omitempty"` // with SackSrv: the port goes into the target literal, Port names another port
 	Sack           SackCfg      `json:"sack"`
 	Fetcher        string       `json:"fetcher,omitempty"` // "" ok | error | slow | hang
+	// Before: requests served by the same process (same cache, same world) before this one; their outcome is ignored
+	// and their packets are kept off this request's ledger. Whatever they leave behind must not show in this one.
+	Before []ReqParams `json:"before,omitempty"`
 	// ReadAfter: the caller keeps reading the returned document (serialises it at once and again 5 s later);
 	// ChangedAfterReturn reports a document that was still being written to after the call had returned
 	ReadAfter bool `json:"read_after,omitempty"`
@@ -311,6 +314,23 @@ func RunRequest(t *testing.T, rq *Request) *ReqOutcome {
 		body := func(t *testing.T) {
 			// no janitor: it compares real time with fake expiries
 			cache.Cache = gocache.New(5*time.Minute, 0)
+			for _, bp := range rq.Before {
+				wb := NewWire(world)
+				wb.MaxVirtual = requestWatchdog(bp)
+				packets.SetVerifHooks(wb.Hooks())
+				func() {
+					defer func() { recover() }()
+					traceroute.NewTracerouteWithFetcher(fetcher).RunTraceroute(context.Background(), bp.ToLib())
+				}()
+				wb.mu.Lock()
+				wb.Returned = true
+				wb.finished.Store(true)
+				wb.mu.Unlock()
+				packets.SetVerifHooks(nil)
+				if !rq.RealTime {
+					synctest.Wait()
+				}
+			}
 			w := NewWire(world)
 			w.Faults = rq.Faults
 			w.MaxVirtual = requestWatchdog(p)
